@@ -92,6 +92,11 @@ def fam_repeat_loop(n):
     return "program p\n" + "".join("  do i = 1, 10\n    x(i) = %d\n  end do\n" % i for i in range(n)) + "end program p\n"
 
 
+def fam_repeat_nonblock(n):
+    """n consecutive (not nested) non-block DO loops, each ended by a labelled action statement"""
+    return "subroutine s(a)\n  real :: a(10)\n" + "".join("  do %d i = 1, 10\n%d a(i) = %d\n" % (100 + k, 100 + k, k) for k in range(n)) + "end subroutine s\n"
+
+
 def fam_long_expr(n):
     return "program p\n  x = " + " + ".join("a%d * b%d" % (i, i) for i in range(n)) + "\nend program p\n"
 
@@ -122,6 +127,7 @@ FAMILIES = {
     "nested-block": (fam_block, 1, 32, 128),
     "repeat-statement": (fam_repeat_stmt, 1, 128, 1024),
     "repeat-loop": (fam_repeat_loop, 1, 64, 512),
+    "repeat-nonblock-do": (fam_repeat_nonblock, 1, 32, 128),
     "long-expression": (fam_long_expr, 1, 64, 256),
     "long-arglist": (fam_args, 1, 64, 256),
     "continued-statement": (fam_continued, 1, 64, 256),
@@ -164,7 +170,7 @@ def run_case(case):
     name = case["family"]
     genf, k, nq, nt = FAMILIES[name]
     nmax = nt if case["tier"] == "thorough" else nq
-    res = {"key": ["family", name], "counts": {}, "findings": [], "nontrivial": True}
+    res = {"key": ["family", name, case.get("std")], "counts": {}, "findings": [], "nontrivial": True}
     sizes = []
     n = 1
     while n <= nmax:
@@ -206,11 +212,12 @@ def run_case(case):
 
 
 def cases(tier, seed):
-    return [{"family": f, "tier": tier, "_timeout": 900} for f in FAMILIES]
+    return [{"family": f, "tier": tier, "std": std, "_timeout": 900} for f in FAMILIES for std in ("f2008", "f2003")
+            if not (std == "f2003" and f in ("nested-block",))]
 
 
 def run(tier, rep, st):
     results = engine.run_cases(__name__, cases(tier, rep.seed), rep)
     rep.evaluations = sum(r.get("evals", 0) for r in results)
-    rep.coverage["tables"] = {r["_case"]["family"]: r.get("table") for r in results}
+    rep.coverage["tables"] = {r["_case"]["family"] + "/" + r["_case"].get("std", ""): r.get("table") for r in results}
     rep.coverage["exhaustive"] = True
